@@ -1079,7 +1079,8 @@ def mask_sift(X, mask_amp=1, mask_amp_mode='ratio_imf', mask_freqs='zc',
         if mask_amp_mode == 'ratio_imf' and imf_layer > 0:
             sd = imf[:, -1].std()
 
-        if isinstance(mask_amp, (int, float)):
+        if np.ndim(mask_amp) == 0:
+            # A single number of any numeric type, including numpy scalars
             amp = mask_amp * sd
         else:
             # Should be array_like if not a single number
